@@ -91,6 +91,7 @@ type Config struct {
 	MaxSimTime time.Duration
 	Stickiness int  // 0..100: probability (%) to keep running the current goroutine at a yield
 	LogEvents  bool // keep full event log (determinism self-test / replay traces)
+	SpawnStall int  // 0..100: probability (%) that a goroutine started by the system under test begins late (a slow or stalled task: legal in Go, nothing says when a new goroutine first runs)
 }
 
 // Result is the outcome of one run
@@ -108,39 +109,41 @@ type Result struct {
 	EventH       uint64 // hash of all scheduling steps
 	Events       []string
 	Goroutines   int
+	SpawnStalls  int // goroutines of the system under test whose start was delayed (Config.SpawnStall)
 	TimerTies    int // simultaneous timer expiries in one select that the simulator had to order itself
 }
 
 // Sched is the scheduler of one run
 type Sched struct {
-	mu        sync.Mutex
-	gs        []*G
-	cur       *G
-	notify    chan struct{}
-	dec       *Decisions
-	cfg       Config
-	steps     int
-	switches  int
-	stop      bool
-	nowSkew   int64         // nanoseconds added to the readings of NowUnique so far
-	wallStep  time.Duration // sum of the injected wall-clock steps
-	lastNowG  int           // goroutine of the last NowUnique reading
-	dead      bool          // teardown has begun: every instrumented operation exits its goroutine
-	crash     *Crash
-	lastRun   *G
-	start     time.Time
-	ih, eh    uint64
-	events    []string
-	herr      string
-	onCrash   func(*Crash)
-	driver    *G
-	nextID    int
-	scratch   []*G
-	simTime   time.Duration
-	stash     map[uintptr]stashed // timer values drained by breakTimerTie, keyed by channel
-	timerTies int
-	capHit    string
-	stuck     string
+	mu          sync.Mutex
+	gs          []*G
+	cur         *G
+	notify      chan struct{}
+	dec         *Decisions
+	cfg         Config
+	steps       int
+	switches    int
+	stop        bool
+	nowSkew     int64         // nanoseconds added to the readings of NowUnique so far
+	wallStep    time.Duration // sum of the injected wall-clock steps
+	lastNowG    int           // goroutine of the last NowUnique reading
+	dead        bool          // teardown has begun: every instrumented operation exits its goroutine
+	crash       *Crash
+	lastRun     *G
+	start       time.Time
+	ih, eh      uint64
+	events      []string
+	herr        string
+	onCrash     func(*Crash)
+	driver      *G
+	nextID      int
+	scratch     []*G
+	simTime     time.Duration
+	stash       map[uintptr]stashed // timer values drained by breakTimerTie, keyed by channel
+	timerTies   int
+	spawnStalls int
+	capHit      string
+	stuck       string
 }
 
 var schedDebug = os.Getenv("VERIF_SCHED_DEBUG") != ""
@@ -216,7 +219,7 @@ func Run(t *testing.T, cfg Config, driver func()) (res Result) {
 		s.notify = make(chan struct{}, 1)
 		s.start = time.Now()
 		active.Store(s)
-		s.driver = s.spawn(nil, "driver", driver)
+		s.driver = s.spawn(nil, "driver", driver, false)
 		s.loop()
 		s.teardown()
 	})
@@ -235,6 +238,7 @@ func (s *Sched) fill(res *Result) {
 	res.Events = s.events
 	res.Goroutines = s.nextID
 	res.TimerTies = s.timerTies
+	res.SpawnStalls = s.spawnStalls
 	res.SimTime = s.simTime
 	res.CapHit = s.capHit
 	if s.stuck != "" {
@@ -400,10 +404,19 @@ func allStacks() string {
 	return string(buf[:n])
 }
 
-func (s *Sched) spawn(parent *G, name string, f func()) *G {
+// a late start is drawn from these; at most maxSpawnStalls per run, so that bounds on the whole run stay meaningful
+var spawnStallSteps = []time.Duration{time.Millisecond, 20 * time.Millisecond, 300 * time.Millisecond, 1500 * time.Millisecond}
+
+const maxSpawnStalls = 6
+
+func (s *Sched) spawn(parent *G, name string, f func(), mayStall bool) *G {
 	s.mu.Lock()
 	s.nextID++
 	g := &G{ID: s.nextID, Name: name, wake: make(chan struct{}), kill: make(chan struct{}), sched: s, site: "start"}
+	if mayStall && s.cfg.SpawnStall > 0 && parent != nil && parent.ChildGen != 0 && s.spawnStalls < maxSpawnStalls && s.dec.Choose(100) < s.cfg.SpawnStall {
+		g.stallTo = time.Now().Add(spawnStallSteps[s.dec.Choose(len(spawnStallSteps))])
+		s.spawnStalls++
+	}
 	if parent != nil {
 		g.Gen = parent.ChildGen
 		g.ChildGen = parent.ChildGen
@@ -534,7 +547,7 @@ func Go(site string, f func()) {
 	}
 	g := s.cur
 	yieldG(g, "go "+site)
-	s.spawn(g, site, f)
+	s.spawn(g, site, f, true) // a go statement of instrumented code
 }
 
 // GoNamed starts a registered harness goroutine with the given name and generation tag
@@ -546,7 +559,7 @@ func GoNamed(name string, gen int, f func()) {
 	g := s.cur
 	saved := g.ChildGen
 	g.ChildGen = gen
-	s.spawn(g, name, f)
+	s.spawn(g, name, f, false)
 	g.ChildGen = saved
 }
 
